@@ -7,6 +7,8 @@ import (
 	"os"
 	"os/exec"
 	"path/filepath"
+	"strconv"
+	"strings"
 	"sync"
 	"syscall"
 	"time"
@@ -355,6 +357,49 @@ func freeUDPPort() (int, error) {
 		return p, nil
 	}
 	return 0, fmt.Errorf("no free loopback UDP port")
+}
+
+// ownsUDPPort reports whether the tool's own process holds a UDP socket bound to the port: the socket
+// inodes of the port (from /proc/net/udp and udp6) are looked up among the process's file descriptors.
+// "Somebody listens on the port" is not enough for a verdict - another check process running at the
+// same time may have been given the same port.
+func (tr *toolRun) ownsUDPPort(port int) bool {
+	inodes := map[string]bool{}
+	for _, f := range []string{"/proc/net/udp", "/proc/net/udp6"} {
+		b, err := os.ReadFile(f)
+		if err != nil {
+			continue
+		}
+		for _, l := range strings.Split(string(b), "\n")[1:] {
+			fs := strings.Fields(l)
+			if len(fs) < 10 {
+				continue
+			}
+			i := strings.LastIndex(fs[1], ":")
+			if i < 0 {
+				continue
+			}
+			if p, err := strconv.ParseInt(fs[1][i+1:], 16, 32); err == nil && int(p) == port {
+				inodes[fs[9]] = true
+			}
+		}
+	}
+	if len(inodes) == 0 || tr.cmd.Process == nil {
+		return false
+	}
+	dir := fmt.Sprintf("/proc/%d/fd", tr.cmd.Process.Pid)
+	ents, err := os.ReadDir(dir)
+	if err != nil {
+		return false
+	}
+	for _, e := range ents {
+		if l, err := os.Readlink(filepath.Join(dir, e.Name())); err == nil && strings.HasPrefix(l, "socket:[") {
+			if inodes[strings.TrimSuffix(strings.TrimPrefix(l, "socket:["), "]")] {
+				return true
+			}
+		}
+	}
+	return false
 }
 
 // udpPortBound reports whether somebody holds the loopback UDP port (we cannot bind it).
